@@ -39,6 +39,13 @@ def lexLines (input : List Byte) : Nat → List Byte → Nat → List (List Stri
     if r.1.kind = .eof then errs ++ [line]
     else errs ++ line :: lexLines input fuel (s.drop r.2) (pos + r.2)
 
+/-- the tokens of the same loop, to cross-check the printed lines against `Lexer.lexAll` (the function the theorems are about) -/
+def loopToks : Nat → List Byte → List Token
+  | 0, _ => []
+  | fuel + 1, s =>
+    let r := nextToken s
+    if r.1.kind = .eof then [eofTok] else r.1 :: loopToks fuel (s.drop r.2)
+
 def kindTag : Kind → String
   | .eof => "eof" | .ident => "ident" | .number => "number" | .string => "string" | .qident => "qident"
   | .kw _ => "keyword" | .minus => "minus" | .eq => "eq" | .ne => "ne" | .dot => "dot"
@@ -91,8 +98,8 @@ structure OpOut where
 
 def lexOp (input : List Byte) (implObs : List (List String)) (want : Option (List Token)) (extraTags : List String) : OpOut :=
   let lines := lexLines input (input.length + 1) input 0
-  let modelToks := (lines.filter (·.head? == some "t")).length
-  let consistent := modelToks == (lexAll input).length
+  let consistent := loopToks (input.length + 1) input == lexAll input &&
+    (lines.filter (·.head? == some "t")).length == (lexAll input).length
   let tags := ((lexAll input).map (fun t => "tok-" ++ kindTag t.kind)).eraseDups ++
     (if lines.any (·.head? == some "e") then ["lex-error-recorded"] else []) ++
     (if junkLen input > 0 then ["leading-junk"] else []) ++
